@@ -275,7 +275,14 @@ def gen_cases(ctx: Ctx, n_direct: int, n_malformed: int, calibs: list):
         lay = FIXED_LAYOUTS[[1, 2, 4, 3, 6, 8][k % 6]]
         cases.append(make_case(r, lay, mode="calib", algo=algo, seed=seed, islands=islands,
                                generations=2, pop=8, evolutions=2, num_best=3))
+    # declarations of total width one (C10-F1: the island's row became a 0-d array in the final application)
+    for k, lay in enumerate([] if ctx.quick else WIDTH_ONE_LAYOUTS):      # quick: the corpus case
+        cases.append(make_case(r, lay, mode="calib", algo="sade", seed=20 + k, islands=1 + k % 2,
+                               generations=1, pop=8, evolutions=1, num_best=2))
     return cases
+
+
+WIDTH_ONE_LAYOUTS = [[("s", True, False)], [("s", False, False)], [(1, True, True)], [(1, False, False)]]
 
 
 # ------------------------------------------------------------------------------------------ Coq emission
@@ -471,7 +478,8 @@ def layout_class(case):
     first_vec = next((i for i, v in enumerate(vs) if v["n"] is not None), None)
     vec_before_scalar = first_vec is not None and any(v["n"] is None for v in vs[first_vec + 1:])
     return dict(vector_before_scalar=vec_before_scalar, any_log=any(v["log"] for v in vs),
-                any_per_component=any(v["bnd"] and v["bnd"][0] == "per" for v in vs))
+                any_per_component=any(v["bnd"] and v["bnd"][0] == "per" for v in vs),
+                total_width_one=sum(1 if v["n"] is None else v["n"] for v in vs) == 1)
 
 
 def to_violation(case, obs, clauses, pb) -> Violation:
